@@ -297,4 +297,19 @@ macro_rules! c09_flags {
     };
 }
 
+/// witness of the open known finding kf_c09_close_to_zero (concrete value)
+#[kani::proof]
+#[kani::unwind(52)]
+#[kani::stub(core::str::from_utf8, ascii_from_utf8)]
+pub fn kfw_c09_close_to_zero() {
+    use substrate_fixed::types::U0F8;
+    let x = U0F8::from_bits(103);
+    let mut s = Sink::new();
+    let _ = write!(s, "{}", x);
+    match U0F8::from_str(s.as_str()) {
+        Ok(y) => assert!(y.to_bits() == 103, "U0F8 103/256 round-trips through Display/FromStr"),
+        Err(_) => assert!(false, "Display output parses"),
+    }
+}
+
 include!("gen_c09.rs");
